@@ -369,7 +369,7 @@ Qed.
 
 (* SInt(z): the smallest two's complement representation of z, value z *)
 Theorem lit_sint_spec z :
-  (- 2 ^ 63 < z < 2 ^ 63)%Z -> bv_sval (lit_sint z) = Some z /\ length (lit_sint z) = lit_sint_width z /\ lit_sint_width z <= 64.
+  (- 2 ^ 63 <= z < 2 ^ 63)%Z -> bv_sval (lit_sint z) = Some z /\ length (lit_sint z) = lit_sint_width z /\ lit_sint_width z <= 64.
 Proof.
   intro Hz. unfold lit_sint.
   set (W := lit_sint_width z).
